@@ -169,7 +169,33 @@ def C06(run):
     layout(run, 'C06')
     oracle(run, 'edit-search', 'edit_search.py', ['C06', run.seed, 4000 if run.tier == 'thorough' else 500], timeout=3000)
 
-PROPS = {'C01': C01, 'C02': C02, 'C03': C03, 'C06': C06, 'C18': C18, 'C14': C14, 'C09': C09, 'C12': C12, 'C16': C16, 'C17': C17, 'C08': C08, 'C04': C04, 'C05': C05, 'C19': C19}
+def C07(run):
+    run.static()
+    gen_cli(run)
+    run.dyn_compile(['CliGen', 'CliProps'])
+    run.props()
+    big = run.tier == 'thorough'
+    run.suite('errors', 'errors_corr.py', [run.seed, 6000 if big else 900], 'ER')
+    run.suite('cli', 'cli_corr.py', [run.seed, 800 if big else 160], 'CLI')
+    for f in run.findings(): oracle_finding(run, f)
+    run.assumptions += ['WHICH texts have a syntax error is tree-sitter\'s verdict (incl. MISSING nodes): trusted and observed, not modelled',
+                        'the gate model Small/Gate.v is hand-written; it is tied to parser.parse / NixSourceCode.from_cst / set_value / remove_value by the errors correspondence (documents and VALUES)']
+
+def C13(run):
+    run.static()
+    gen_strings(run)
+    run.dyn_compile(['Gen', 'Refine', 'DataRender'])
+    run.props()
+    big = run.tier == 'thorough'
+    run.suite('gen=escape', 'fcorr.py', ['escape', 4 if big else 3, 400, run.seed], 'FC_escape')
+    run.suite('data', 'data_corr.py', [run.seed, 4000 if big else 700], 'DATA')
+    res = oracle(run, 'data-search', 'c13_search.py', [run.seed, 12000 if big else 2000], timeout=3000)
+    for f in run.findings(): oracle_finding(run, f)
+    run.assumptions += ['floats are outside the model (CPython repr(float) is not modelled): search only, finding F-15 listed',
+                        'of_py is a hand-written model of coerce_expression + constructors at the level of the emitted token tree; tied to the code by the data correspondence (tree-sitter tokenisation of the emitted text)',
+                        'layout stability of constructed values (render twice, parse/rebuild stable) is covered by the data search (test)']
+
+PROPS = {'C13': C13, 'C07': C07, 'C01': C01, 'C02': C02, 'C03': C03, 'C06': C06, 'C18': C18, 'C14': C14, 'C09': C09, 'C12': C12, 'C16': C16, 'C17': C17, 'C08': C08, 'C04': C04, 'C05': C05, 'C19': C19}
 
 def main():
     ap = argparse.ArgumentParser()
